@@ -383,8 +383,7 @@ BuiltAll buildAll(const Ctx &ctx, bool checkResolved)
             b.importer->addModel(b.libs.back().model, ctx.libUrl[i]);
         }
         b.importer->resolveImports(b.base.model, "/nonexistent-c04/base/");
-        // hasUnresolvedImports() is asked for the base model only: on a component whose math is not well-formed XML it
-        // dereferences a null root node (utilities.cpp findComponentCnUnitsNames), which is not this property's subject
+        // hasUnresolvedImports() is asked for the base model only (faults on import references leave imports unresolved on purpose)
         b.importerClean = b.importer->issueCount() == 0 && (!checkResolved || !b.base.model->hasUnresolvedImports());
         if (!b.importerClean) {
             b.importerText = dumpIssues(b.importer);
@@ -2790,12 +2789,6 @@ void mathSites(const Ctx &ctx, std::vector<Site> &out)
 
 bool applyMathFault(const Frag &f, Ctx &ctx, const Site &s, uint64_t aux, Applied &ap)
 {
-    if (f.name == "xml:malformed" && s.mi >= 0) {
-        // Not this property's subject: Importer::resolveImports() dereferences a null root node in
-        // findComponentCnUnitsNames() (utilities.cpp) when the math of an imported component is not well-formed XML.
-        ctx.counts["excluded:ubsan:null-member-call|libcellml::findComponentCnUnitsNames (math of an imported component is not well-formed; crash in Importer::resolveImports)"] += 1;
-        return false;
-    }
     ModelSpec &m = ctx.m(s.mi);
     CompSpec &c = m.comps[static_cast<size_t>(s.ci)];
     FragEnv env;
